@@ -21,6 +21,8 @@ pub enum Cmd {
     Run { rules: Option<String>, json: Option<String>, words: Option<String>, alias: Option<String>, output: Option<String>, compare: Option<String> },
     ConvAsca { words: Option<String>, rules: Option<String>, alias: Option<String>, output: Option<String> },
     ConvJson { path: Option<String>, words: Option<String>, rules: Option<String>, alias: Option<String> },
+    /// not an asca invocation: the user edits a file (root-relative path, new text, new meaning)
+    Edit { path: String, text: String, meaning: Meaning },
 }
 
 impl Cmd {
@@ -49,6 +51,10 @@ impl Cmd {
                 opt(&mut a, "-r", rules);
                 opt(&mut a, "-a", alias);
                 opt(&mut a, "-o", output);
+            }
+            Cmd::Edit { path, .. } => {
+                a.push("<edit>".into());
+                a.push(path.clone());
             }
             Cmd::ConvJson { path, words, rules, alias } => {
                 a.push("conv".into());
@@ -125,12 +131,15 @@ pub fn render_rsca(groups: &[Group], f: &Fmt, r: &mut Rng) -> String {
     let nl = f.nl();
     let mut s = String::new();
     for (gi, g) in groups.iter().enumerate() {
-        s.push('@');
-        if f.space_after_at {
-            s.push(' ');
+        let untitled = gi == 0 && g.name.is_empty() && g.description.is_empty() && !g.rule.is_empty();
+        if !untitled {
+            s.push('@');
+            if f.space_after_at {
+                s.push(' ');
+            }
+            s.push_str(&g.name);
+            s.push_str(nl);
         }
-        s.push_str(&g.name);
-        s.push_str(nl);
         for (ri, rule) in g.rule.iter().enumerate() {
             if ri > 0 && f.blank_between_rules && r.chance(1, 2) {
                 s.push_str(f.indent);
@@ -229,8 +238,8 @@ pub fn render_alias(into: &[String], from: &[String], f: &Fmt, blank_lines: bool
 
 // ------------------------------------------------------------------ models
 
-const NAMES: [&str; 20] = [
-    "1st shift", "*special", "a  b", "Voice (early)", "Grimms Law", "Verners Law", "Voice", "Raise", "Glottal Deletion", "Cluster Simplification", "Hap(lo)logy", "Low Vowel Reduction", "Stress Shift",
+const NAMES: [&str; 23] = [
+    "Þ Fortition", "Ümlaut II", "Éclipsis", "1st shift", "*special", "a  b", "Voice (early)", "Grimms Law", "Verners Law", "Voice", "Raise", "Glottal Deletion", "Cluster Simplification", "Hap(lo)logy", "Low Vowel Reduction", "Stress Shift",
     "Umlaut", "final-devoicing", "Palatalisation 2", "Lenition", "a-mutation", "Syncope", "Nasal Assimilation",
 ];
 const DESCS: [&str; 8] = [
@@ -267,7 +276,10 @@ pub fn safe_rule(d: &Data, r: &mut Rng, allow_wild: bool) -> String {
     loop {
         let rule = if allow_wild && r.chance(1, 8) { gen::gen_rule(d, r) } else if r.chance(1, 4) { r.pick(&d.example_rules).clone() } else { r.pick(&d.test_rules).clone() };
         let t = rule.trim();
-        if t.is_empty() || t != rule || t.starts_with('@') || t.starts_with('#') || rule.contains('\n') {
+        // rules that build whole syllables out of single segments make words grow geometrically
+        // along a pipeline (C02's business, and slow): not used for the command-line engines
+        let grows = rule.split('>').skip(1).any(|rhs| rhs.contains('<') || rhs.contains('⟨'));
+        if t.is_empty() || t != rule || t.starts_with('@') || t.starts_with('#') || rule.contains('\n') || grows {
             continue;
         }
         return rule;
@@ -322,10 +334,23 @@ pub fn gen_words(d: &Data, r: &mut Rng) -> Vec<String> {
     v
 }
 
+/// a rule file may begin with a plain list of rules before its first `@ title`: that is an
+/// untitled group (the web UI's default, RuleGroup::from_rules)
+pub fn maybe_untitled_first(groups: &mut Vec<Group>, d: &Data, r: &mut Rng) {
+    if r.chance(1, 8) {
+        let nr = r.range(1, 3);
+        let rules = (0..nr).map(|_| safe_rule(d, r, false)).collect();
+        groups.insert(0, Group { name: String::new(), rule: rules, description: String::new() });
+    }
+}
+
 pub fn gen_model(d: &Data, r: &mut Rng) -> Model {
     let wild = r.chance(1, 4);
     let (into, from) = if r.chance(1, 2) { gen::gen_aliases(r) } else { (vec![], vec![]) };
-    Model { into, from, words: gen_words(d, r), rules: gen_groups(d, r, 4, wild) }
+    let words = gen_words(d, r);
+    let mut rules = gen_groups(d, r, 4, wild);
+    maybe_untitled_first(&mut rules, d, r);
+    Model { into, from, words, rules }
 }
 
 pub fn json_text(m: &Model, r: &mut Rng) -> String {
@@ -548,6 +573,19 @@ pub fn gen_scn(d: &Data, r: &mut Rng, faulty: bool) -> Scn {
             fault_seed: r.next_u64(),
             recover: matches!(class, FaultClass::Hard | FaultClass::Crash) && r.chance(2, 3),
         });
+    }
+    if invs.len() >= 2 && r.chance(1, 4) {
+        // the user edits the word list or the rules between two invocations
+        let at = r.range(1, invs.len() - 1);
+        let cmd = if r.chance(1, 2) {
+            let words = gen_words(d, r);
+            Cmd::Edit { path: ws.clone(), text: render_wsca(&words, &fmt, r), meaning: Meaning::Words(words) }
+        } else {
+            let mut groups = gen_groups(d, r, 3, false);
+            maybe_untitled_first(&mut groups, d, r);
+            Cmd::Edit { path: rs.clone(), text: render_rsca(&groups, &fmt, r), meaning: Meaning::Rules(groups) }
+        };
+        invs.insert(at, Inv { cmd, cwd: String::new(), answers: vec![], detrand: 1, dirseed: 0, class: FaultClass::None, plan: vec![], fault_seed: 0, recover: false });
     }
     Scn { files, meaning, dirs, invs }
 }
